@@ -213,3 +213,80 @@ def base_world(seed, profile, index, spec, x0, y0, params, clock=None, obs=None,
         "solver": solver,
         "case": case or {},
     }
+
+
+def gen_convex_qp(rng, n=None, banded=False):
+    """The conservative generator of C03's class: strictly convex quadratic objective
+    (eigenvalues in [0.5, 20] dense / diagonally dominant banded), affine rows with
+    sigma_min(A restricted to non-fixed columns) >= 0.2 and ||A|| <= 10, a point xbar that is
+    strictly inside every inequality and every non-fixed bound by >= 0.1, right-hand sides
+    from xbar, in-bounds start with ||x0 - xbar|| moderate."""
+    n = n or int(rng.integers(1, 9))
+    if banded:
+        d = rng.uniform(2, 6, size=n)
+        o = rng.uniform(-1, 1, size=n - 1)
+        Q = np.diag(d) + np.diag(o, 1) + np.diag(o, -1) + 0.5 * np.eye(n)
+    else:
+        Vm, _ = np.linalg.qr(rng.normal(size=(n, n)))
+        lam = rng.uniform(0.5, 20, size=n)
+        Q = (Vm * lam) @ Vm.T
+        Q = (Q + Q.T) / 2
+    q = rng.normal(size=n) * 3
+    xl = np.full(n, -INF)
+    xu = np.full(n, INF)
+    xbar = rng.normal(size=n) * 2
+    fixed = np.zeros(n, bool)
+    for j in range(n):
+        t = int(rng.integers(0, 6))
+        if t == 1:
+            xl[j] = xbar[j] - rng.uniform(0.1, 3)
+        elif t == 2:
+            xu[j] = xbar[j] + rng.uniform(0.1, 3)
+        elif t == 3:
+            xl[j] = xbar[j] - rng.uniform(0.1, 3)
+            xu[j] = xbar[j] + rng.uniform(0.1, 3)
+        elif t == 4 and rng.random() < 0.4:
+            xl[j] = xu[j] = xbar[j]
+            fixed[j] = True
+    nfree = int((~fixed).sum())
+    mmax = min(nfree, 4 if not banded else n // 4)
+    m = int(rng.integers(0, mmax + 1))
+    while True:
+        if banded:
+            A = np.zeros((m, n))
+            for i in range(m):
+                j0 = int(rng.integers(0, n - 2))
+                A[i, j0 : j0 + 3] = rng.normal(size=3)
+        else:
+            A = rng.normal(size=(m, n))
+        if m == 0:
+            break
+        Af = A[:, ~fixed]
+        if np.linalg.svd(Af, compute_uv=False).min() >= 0.2 and np.linalg.norm(A, 2) <= 10:
+            break
+    cf = A @ xbar
+    cl = np.zeros(m)
+    cu = np.zeros(m)
+    b = np.zeros(m)
+    for i in range(m):
+        t = int(rng.integers(0, 4))
+        if t == 0:
+            if rng.random() < 0.5:
+                b[i] = cf[i]
+            else:
+                cl[i] = cu[i] = cf[i]
+        elif t == 1:
+            cl[i] = cf[i] - rng.uniform(0.1, 2)
+            cu[i] = INF
+        elif t == 2:
+            cl[i] = -INF
+            cu[i] = cf[i] + rng.uniform(0.1, 2)
+        else:
+            cl[i] = cf[i] - rng.uniform(0.1, 2)
+            cu[i] = cf[i] + rng.uniform(0.1, 2)
+    x0 = np.clip(xbar + rng.normal(size=n) * float(rng.choice([0.1, 1, 5])) / max(1.0, np.sqrt(n) / 2), xl, xu)
+    spec = dict(
+        family="convex-qp" + ("-banded" if banded else ""), n=n, m=m, Q=Q, q=q, a=np.zeros(n), A=A, B=np.zeros((m, n)), b=b,
+        xl=xl, xu=xu, cl=cl, cu=cu, dom=None, policy="fresh", fmt=str(rng.choice(["coo", "csr", "csc"])),
+    )
+    return spec, x0, np.zeros(m)
